@@ -768,6 +768,11 @@ int32_t pstm_lshd(pstm_int *a, uint16_t b)
     {
         return PSTM_OKAY;
     }
+    /* Zero stays zero (and clamped: used == 0).  */
+    if (a->used == 0)
+    {
+        return PSTM_OKAY;
+    }
     /* Grow to fit the new digits.  */
     if (a->alloc < a->used + b)
     {
